@@ -34,7 +34,7 @@ type stats struct {
 	Uninstr      []string       `json:"uninstrumented_sites"`
 	SourceSHA    string         `json:"source_sha"`
 	SyncImports  int            `json:"sync_imports_rewritten"`
-	DeferDynamic int            `json:"deferred_dynamic_calls_not_preceded_by_yield"`
+	DeferDynamic int            `json:"deferred_scheduling_points"`
 }
 
 type rewriter struct {
@@ -439,14 +439,20 @@ func (rw *rewriter) stmt(s ast.Stmt) (pre []ast.Stmt, repl ast.Stmt) {
 		pre = rw.yields(x.Pos(), rw.triggers(x))
 	case *ast.DeferStmt:
 		rw.funcLits(x.Call)
-		if k := rw.callKind(x.Call); k == "dyn" || k == "iface" || k == "close" {
-			rw.st.DeferDynamic++
-		}
 		var nodes []ast.Node
 		for _, a := range x.Call.Args {
 			nodes = append(nodes, a)
 		}
 		pre = rw.yields(x.Pos(), rw.triggers(nodes...))
+		if k := rw.callKind(x.Call); k == "dyn" || k == "iface" || k == "close" || k == "atomic" || k == "ctx" {
+			// R8: a deferred scheduling point. A second defer registered right
+			// after it runs right before it (LIFO): the yield happens when the
+			// call executes, argument evaluation time and recover() semantics of
+			// the original deferred call are untouched.
+			rw.st.DeferDynamic++
+			y := rw.yieldStmt(x.Pos(), "defer-"+k).(*ast.ExprStmt)
+			repl = &ast.BlockStmt{List: []ast.Stmt{x, &ast.DeferStmt{Call: y.X.(*ast.CallExpr)}}}
+		}
 	case *ast.GoStmt:
 		pre, repl = rw.goStmt(x)
 	case *ast.IfStmt:
